@@ -61,7 +61,15 @@ func (b *wsBackend) ServeHTTP(w http.ResponseWriter, r *http.Request) {
 	if r.Header.Get("X-Verif-Bigframes") == "1" {
 		up.WriteBufferSize = 256 << 10 // whole messages as single frames (16-bit and 64-bit length encodings)
 	}
-	c, err := up.Upgrade(w, r, http.Header{"X-Backend": {fmt.Sprint(b.index)}})
+	// the scripted part of the answer (handshake.go): a pause, interim responses, further fields on the 101
+	ans := parseAnswer(r)
+	ans.sendInterim(w)
+	up.EnableCompression = ans.Deflate
+	rh := http.Header{"X-Backend": {fmt.Sprint(b.index)}}
+	for _, kv := range ans.Extra {
+		rh.Add(kv[0], kv[1])
+	}
+	c, err := up.Upgrade(w, r, rh)
 	if err != nil {
 		b.refused.Add(1)
 		return
